@@ -33,6 +33,9 @@ pub enum Item {
     CharConst(u32, Piece),
     /// asm("text"); inside main
     Asm(String),
+    /// two calls with a literal argument each in one expression: `cr = fc("a") + fc("b");`, or
+    /// nested: `cr = gc("a", fc("b"));`
+    TwoCalls(Lit, Lit, bool),
 }
 
 #[derive(Debug, Clone, Serialize, Deserialize)]
@@ -302,7 +305,8 @@ pub fn gen_case(g: &mut G, ex: &Excl) -> Case {
     let ns = g.below(4);
     for _ in 0..ns {
         stmts.push(match g.below(5) {
-            0 | 1 => Item::CallArg(gen_lit(g, 10, ex)),
+            0 => Item::CallArg(gen_lit(g, 10, ex)),
+            1 => Item::TwoCalls(gen_lit(g, 6, ex), gen_lit(g, 6, ex), g.chance(1, 2)),
             2 | 3 => Item::Assign(gen_lit(g, 10, ex)),
             _ => {
                 let t = *g.pick(&["nop ; // not a comment", "lda #1 /* text */", "sta FOO", "; #define X 1", "nop"]);
@@ -335,6 +339,13 @@ fn item_text(it: &Item) -> String {
         }
         Item::CharConst(k, p) => format!("const char c{} = '{}';", k, spell(&vec![p.clone()])),
         Item::CallArg(l) => format!("ff(\"{}\");", spell(l)),
+        Item::TwoCalls(a, b, nested) => {
+            if *nested {
+                format!("cr = gc(\"{}\", fc(\"{}\"));", spell(a), spell(b))
+            } else {
+                format!("cr = fc(\"{}\") + fc(\"{}\");", spell(a), spell(b))
+            }
+        }
         Item::Assign(l) => format!("pp = \"{}\";", spell(l)),
         Item::Asm(t) => format!("asm(\"{}\");", t),
     }
@@ -361,6 +372,9 @@ pub fn source(c: &Case) -> String {
         s.push_str(&format!("#define {} {}\n", n, v));
     }
     s.push_str("char *pp;\nvoid ff(char *q) { }\n");
+    if c.stmts.iter().any(|i| matches!(i, Item::TwoCalls(..))) {
+        s.push_str("char cr;\nchar fc(char *q) { return 1; }\nchar gc(char *q, char c) { return c; }\n");
+    }
     let has_header = !c.header.is_empty() || !c.header_macros.is_empty();
     for (i, l) in c.lines.iter().enumerate() {
         if has_header && i == c.include_after.min(c.lines.len()) {
@@ -412,6 +426,7 @@ pub fn check(case: &Case, st: &mut Stats, ex: &Excl) -> Result<(), String> {
             match it {
                 Item::Array(_, p) | Item::Table(_, p) => hit |= p.iter().any(bad),
                 Item::CallArg(l) | Item::Assign(l) => hit |= bad(l),
+                Item::TwoCalls(a, b, _) => hit |= bad(a) || bad(b),
                 _ => {}
             }
         }
@@ -532,6 +547,22 @@ pub fn check(case: &Case, st: &mut Stats, ex: &Excl) -> Result<(), String> {
                 if interesting(l) {
                     nt = true;
                 }
+            }
+            Item::TwoCalls(a, b, _) => {
+                st.count("label:two-literal-calls-in-one-expression");
+                for l in [a, b] {
+                    st.count("literals");
+                    let mut want = decode(l);
+                    want.push(0);
+                    if !take_anon(&want) {
+                        return Err(format!(
+                            "C09-bytes: literal \"{}\" of an expression with two calls: no literal variable holds the expected bytes [{}]",
+                            spell(l),
+                            hex(&want)
+                        ));
+                    }
+                }
+                nt = true;
             }
             Item::CharConst(k, p) => {
                 st.count("char_constants");
